@@ -34,6 +34,8 @@ class Obligation:
 
     @property
     def result(self):
+        if self.verdict is not None and self.verdict.result == 'sat':
+            return 'sat'        # a counterexample stands even if the vacuity guard missed an expected outcome class
         if self.inconclusive:
             return 'inconclusive'
         return self.verdict.result if self.verdict else 'inconclusive'
@@ -47,8 +49,10 @@ class Obligation:
         if self.verdict:
             d.update(self.verdict.as_dict())
             d['result'] = self.result
-        if self.inconclusive:
+        if self.inconclusive and self.result != 'sat':
             d['inconclusive_reason'] = self.inconclusive
+        elif self.inconclusive:
+            d['vacuity_note'] = self.inconclusive
         d.update(self.extra)
         return d
 
@@ -2698,8 +2702,9 @@ class PatternParser:
                             k = d
                             break
                     if k is None:
-                        raise Inconclusive('character-class range of undetermined width')
-                    members += [z3.simplify(lo + BV(d, 32)) for d in range(k + 1)]
+                        members.append(RS.Range(lo, hi))      # width not fixed by the path condition: kept as a range
+                    else:
+                        members += [z3.simplify(lo + BV(d, 32)) for d in range(k + 1)]
                 else:
                     members.append(lo)
             self.i += 1
@@ -2766,6 +2771,7 @@ def q02t(ctx, lens=(2, 2), with_empty=False, domain='letters', settings=None):
         assume = [z3.And(z3.UGE(v, BV(0x61, 32)), z3.ULE(v, BV(0x7A, 32))) for v in allv]
     else:
         assume = [z3.Or(z3.And(z3.UGE(v, BV(0x20, 32)), z3.ULE(v, BV(0x7E, 32))), v == BV(10, 32), v == BV(9, 32)) for v in allv]
+        assume += [z3.And(z3.UGE(v, BV(9, 32)), z3.ULE(v, BV(0x7E, 32))) for v in allv]     # redundant; lets table look-ups be clipped to the interval
     fields = ctx.mir.structs.get('RegExpConfig')
     off = {k: (BV(1, 32) if k.startswith('minimum_') else z3.BoolVal(False)) for k in fields}
     names = {'repetitions': 'is_repetition_converted', 'verbose': 'is_verbose_mode_enabled', 'capture': 'is_capturing_group_enabled',
@@ -2824,7 +2830,17 @@ def q02t(ctx, lens=(2, 2), with_empty=False, domain='letters', settings=None):
             if start != (not settings.get('no_start_anchor')) or end != (not settings.get('no_end_anchor')):
                 bads.append(z3.And(*o2.st.pc))
                 continue
-            bads.append(z3.And(*o2.st.pc, z3.Not(set_eq(inputs, words))))
+            if all(is_bv(e_) for w_ in words for e_ in w_):
+                bads.append(z3.And(*o2.st.pc, z3.Not(set_eq(inputs, words))))
+            else:
+                # some position is a class range of undetermined width: compare the languages through a fresh candidate string
+                diffs = []
+                for L in sorted(set(len(w_) for w_ in words) | set(len(t_) for t_ in inputs)):
+                    xq = [z3.BitVec('xq%d' % i, 32) for i in range(L)]
+                    inP = [RS.word_match(w_, xq, 0, ctx.oracle) for w_ in words if len(w_) == L]
+                    inS = [z3.And(*[a_ == b_ for a_, b_ in zip(t_, xq)]) if t_ else z3.BoolVal(True) for t_ in inputs if len(t_) == L]
+                    diffs.append(z3.And(z3.BitVec('xqlen', 32) == BV(L, 32), *[valid_char(x_) for x_ in xq], z3.Xor(z3.Or(*inP) if inP else z3.BoolVal(False), z3.Or(*inS) if inS else z3.BoolVal(False))))
+                bads.append(z3.And(*o2.st.pc, z3.Or(*diffs)))
             if getattr(ctx, 'debug_paths', None) is not None:
                 ctx.debug_paths.append((list(o2.st.pc), items, words))
     ctx.finish(ob, ex, t0)
@@ -2841,7 +2857,8 @@ def q02t(ctx, lens=(2, 2), with_empty=False, domain='letters', settings=None):
             for j in range(i + 1, len(allv)):
                 parts.append((allv[i] == allv[j]) if vals[i] == vals[j] else (allv[i] != allv[j]))
         return z3.Not(z3.And(*parts)) if parts else z3.BoolVal(False)
-    ob.verdict = decide(ob.qid, assume + ob.defs, z3.Or(*bads) if bads else z3.BoolVal(False), allv, all_sat=True,
+    xq_all = [z3.BitVec('xq%d' % i, 32) for i in range(max(lens) + 2)] + [z3.BitVec('xqlen', 32)]
+    ob.verdict = decide(ob.qid, assume + ob.defs, z3.Or(*bads) if bads else z3.BoolVal(False), allv + xq_all, all_sat=True,
                         max_models=ctx.cap('Q02t'), second=ctx.second, workdir=ctx.workdir,
                         second_timeout_s=getattr(ctx, 'second_timeout', 60), blocker=blocker)
     return ob
@@ -3545,6 +3562,128 @@ def q10h(ctx, lens=(2, 1), settings=None):
     ob.verdict = decide(ob.qid, assume + ob.defs, z3.Or(*bads) if bads else z3.BoolVal(False), allv, all_sat=True,
                         max_models=ctx.cap('Q10h'), second=ctx.second, workdir=ctx.workdir,
                         second_timeout_s=getattr(ctx, 'second_timeout', 60), blocker=blocker)
+    return ob
+
+
+# =========================================================================== Q04t  end to end, case-insensitive matching
+def m_to_lowercase_ascii(ex, st, fr, callee, a, depth):
+    """str::to_lowercase on a string the path condition confines to ASCII: A..Z -> a..z, everything else unchanged (std documents
+    exactly this for ASCII; no final-sigma context, no expansion)"""
+    s_ = as_str(st, a[0])
+    out = []
+    for x in s_.items:
+        b = ex.bounds(st, x) if is_bv(x) else None
+        if concrete(x) is None and (b is None or b[1] >= 0x80):
+            if not ex.must(st, z3.ULT(x, BV(0x80, 32))):
+                raise Inconclusive('to_lowercase (ASCII model) on a character that may be non-ASCII')
+        out.append(z3.simplify(z3.If(z3.And(z3.UGE(x, BV(0x41, 32)), z3.ULE(x, BV(0x5A, 32))), x + BV(32, 32), x)))
+    return SymStr(out)
+
+
+@guarded
+def q04t(ctx, lens=(2, 1), settings=None):
+    """Q04t: the whole of build() with case-insensitive matching: the printed pattern carries (?i) and accepts exactly the strings equal to a test case up to the regex engine's simple case folding; test cases that differ only in case collapse"""
+    settings = dict(settings or {})
+    stag = ''.join('[%s]' % k for k in sorted(settings) if settings[k])
+    ob = Obligation('Q04t[%s]%s' % (','.join(map(str, lens)), stag), q04t.__doc__)
+    ob.domain = ('%d test cases of %s ASCII letters A..Z a..z (every casing and equality pattern); case-insensitive matching%s; the candidate '
+                 'string x ranges over ALL scalar values at every position (so U+212A KELVIN, U+017F LONG S ... are candidates)' % (
+                     len(lens), '/'.join(map(str, lens)), ''.join(', ' + k for k in sorted(settings) if settings[k])))
+    ob.bound = 'exactly these lengths'
+    cases = [[z3.BitVec('s%d_%d' % (i, j), 32) for j in range(n)] for i, n in enumerate(lens)]
+    allv = [v for c in cases for v in c]
+    assume = [z3.And(z3.UGE(v, BV(0x41, 32)), z3.ULE(v, BV(0x7A, 32))) for v in allv]
+    assume += [z3.Or(z3.ULE(v, BV(0x5A, 32)), z3.UGE(v, BV(0x61, 32))) for v in allv]
+    fields = ctx.mir.structs.get('RegExpConfig')
+    off = {k: (BV(1, 32) if k.startswith('minimum_') else z3.BoolVal(False)) for k in fields}
+    off['is_case_insensitive_matching'] = z3.BoolVal(True)
+    names = {'verbose': 'is_verbose_mode_enabled', 'capture': 'is_capturing_group_enabled', 'repetitions': 'is_repetition_converted'}
+    for k, val in settings.items():
+        if k not in names:
+            raise Inconclusive('setting %s is not supported by Q04t' % k)
+        off[names[k]] = z3.BoolVal(bool(val))
+    cfgv = config_value(ctx, off)
+    orbit = dict(ctx.oracle['orbit'])
+    fold_defs, fold_memo = [], {}
+
+    def fold(t):
+        """orbit representative of t under the regex crate's simple case folding, named once per term"""
+        c_ = concrete(t)
+        if c_ is not None:
+            return BV(orbit.get(c_, c_), 32)
+        k = t.get_id()
+        if k in fold_memo:
+            return fold_memo[k][0]
+        f_ = z3.BitVec('fold!%d' % len(fold_memo), 32)
+        if any(t.eq(v_) for v_ in allv):
+            ents = [(a_, BV(r_, 32)) for a_, r_ in ctx.oracle['orbit'] if 0x41 <= a_ <= 0x7A]     # t is confined to A..z
+        else:
+            ents = [(a_, BV(r_, 32)) for a_, r_ in ctx.oracle['orbit']]
+        fold_memo[k] = (f_, t)
+        fold_defs.append(f_ == table_tree(t, ents, t))
+        return f_
+    ex = ctx.new_exec([(P(r'^<str as UnicodeSegmentation>::graphemes$'), m_graphemes_per_letter),
+                       (P(r'impl str>::to_lowercase$'), m_to_lowercase_ascii)] + make_gc_models(ctx) + make_regex_models(ctx, lambda t: orbit_rep(ctx, t)))
+    st = State(pc=list(assume))
+    cfg = st.ref(cfgv)
+    v = st.ref(ListV([SymStr(c) for c in cases]))
+    f_from = ctx.mir.one_fn(r'^regexp::<impl at [^>]*>::from$')
+    f_fmt = display_fmt_name(ctx, 'RegExp')
+    t0 = time.time()
+    maxlen = max(lens)
+    xs = [z3.BitVec('x%d' % i, 32) for i in range(maxlen + 2)]
+    xlen = z3.BitVec('xlen', 32)
+    bads = []
+    npaths = 0
+    for o in ex.run_fn(st, f_from, [v, cfg]):
+        if o.panic:
+            bads.append(z3.And(*o.st.pc))
+            continue
+        buf = o.st.ref(SymStr(()))
+        for o2 in ex.run_fn(o.st, f_fmt, [o.st.ref(o.val), buf]):
+            npaths += 1
+            if o2.panic:
+                bads.append(z3.And(*o2.st.pc))
+                continue
+            items = list(o2.st.load(buf).items)
+            cls = re.sub(r'<[^>]*>', 'x', ''.join(chr(concrete(x)) if concrete(x) is not None else 'x' for x in items)).replace('\n', '/')
+            ob.classes_seen[cls] = ob.classes_seen.get(cls, 0) + 1
+            head = [ord(ch) for ch in ('(?ix)' if settings.get('verbose') else '(?i)')]
+            if cps(items[:len(head)]) != head:
+                bads.append(z3.And(*o2.st.pc))      # the flag is missing
+                continue
+            body = items[len(head):]
+            if settings.get('verbose'):
+                body = strip_verbose_whitespace(body)
+            words, sa, ea = pattern_words(ex, o2.st, body, ctx.oracle)
+            if not (sa and ea):
+                bads.append(z3.And(*o2.st.pc))
+                continue
+            diffs = []
+            for L in sorted(set(len(w) for w in words) | set(lens)):
+                if L > len(xs):
+                    raise Inconclusive('pattern word longer than the candidate string')
+                x = xs[:L]
+                ws = [w for w in words if len(w) == L]
+                inP = z3.Or(*[RS.word_match(w, x, 0, ctx.oracle, fold) for w in ws]) if ws else z3.BoolVal(False)
+                inS = [z3.And(*[fold(c) == fold(xc) for c, xc in zip(t_, x)]) for t_ in cases if len(t_) == L]
+                inS = z3.Or(*inS) if inS else z3.BoolVal(False)
+                diffs.append(z3.And(xlen == BV(L, 32), z3.Xor(inP, inS)))
+            # collapse: no two alternatives of the pattern are case variants of each other (literal words only)
+            lits = [w for w in words if all(is_bv(pm) for pm in w)]
+            for i in range(len(lits)):
+                for j in range(i + 1, len(lits)):
+                    if len(lits[i]) == len(lits[j]) and lits[i]:
+                        diffs.append(z3.And(xlen == BV(0xFFFF, 32), *[fold(a_) == fold(b_) for a_, b_ in zip(lits[i], lits[j])]))
+            bads.append(z3.And(*o2.st.pc, z3.Or(*diffs)))
+    ctx.finish(ob, ex, t0)
+    ob.paths = npaths
+    if len(ob.classes_seen) > 40:
+        ob.classes_seen = dict(sorted(ob.classes_seen.items(), key=lambda kv: -kv[1])[:40])
+    ob.verdict = decide(ob.qid, assume + [valid_char(x) for x in xs] + ob.defs + fold_defs, z3.Or(*bads) if bads else z3.BoolVal(False), allv + xs + [xlen],
+                        all_sat=True, max_models=ctx.cap('Q04t'), workdir=ctx.workdir,
+                        second=tuple(x for x in ctx.second if not (getattr(ctx, 'tier', 'quick') == 'quick' and x.startswith('cvc5'))),
+                        second_timeout_s=getattr(ctx, 'second_timeout', 60), block_vars=allv)
     return ob
 
 
